@@ -16,8 +16,10 @@ func Table.Prefix
   ensures result == prefixOf(t)
 
 func Store.Mutate
-  modifies everything, mutateCalls, lastMutations, lastMetadata
+  modifies everything, mutateCalls, lastMutations, lastMetadata, lastWriteCarriesState
   assumes mutateCalls == old(mutateCalls) + 1 && lastMutations == mutations && lastMetadata == metadata
+  // (what the batch looked like when it was handed over: its last mutation targets the fsm-state table)
+  assumes lastWriteCarriesState == old(len(mutations) >= 1 && mutations[len(mutations) - 1] != nil && mutations[len(mutations) - 1].Table == FSMStateTable)
 
 func Store.Get
   ensures isnil(result_1) ==> result_0 != nil
@@ -44,4 +46,12 @@ func ManagedStore.DeleteBackup
   assumes deleteBackupCalls == old(deleteBackupCalls) + 1 && lastDeletedBackup == backupID
 func ManagedStore.GetBackupsInfo
   modifies everything
+
+// C09: a state transfer replayed into the store changes it underneath whoever caches it
+func ManagedStore.LoadSnapshot
+  modifies everything, snapshotLoads
+  assumes snapshotLoads == old(snapshotLoads) + 1
+func ManagedStore.FetchSnapshot
+  modifies everything
+func ManagedStore.LastWALSequenceNumber
 @*/
